@@ -222,11 +222,13 @@ def gen_partitioning(rng, e, ranks, decl, max_ranks=2, max_depth=3):
         return part
     for r in rng.sample(cand, rng.randint(1, min(max_ranks, len(cand)))):
         depth = rng.choice([1, 1, 2, 2, 3][:1 + 2 * (max_depth - 1)])
+        if max_depth >= 3 and rng.random() < 0.06:
+            depth = rng.randint(9, 12)        # level names with two digits (K10, K11, ...)
         holders = [t for t in einsum_tensors(e)[1:] if r in decl[t]]
         ds = []
         dyn = False
         for lvl in range(depth):
-            size = 2 ** (depth - lvl) * rng.choice([1, 2, 3])
+            size = 2 ** min(depth - lvl, 12) * rng.choice([1, 2, 3])
             k = rng.random()
             if dyn and not holders:
                 break
